@@ -24,6 +24,8 @@ import (
 	"google.golang.org/protobuf/types/known/anypb"
 )
 
+type protoMsg = proto.Message
+
 type ClientForm int
 
 const (
@@ -210,6 +212,9 @@ func (c *ClientReq) Build(r *rand.Rand) (*BuiltReq, error) {
 		target = rr.RawPath
 		if rr.RawQuery != "" {
 			target += "?" + rr.RawQuery
+		}
+		if !rr.HasBody {
+			c.Comp = "" // nothing to compress: no Content-Encoding is declared
 		}
 		if rr.HasBody {
 			body = compressWith(c.Comp, rr.Body)
@@ -453,7 +458,7 @@ func parseConnectUnary(c *ClientReq, o *Outcome, body []byte, httpTrailers http.
 		if !acceptable(c, enc) {
 			o.bad("Content-Encoding %q was not offered by the client", enc)
 		}
-		data, err := decompressWith(enc, body)
+		data, err := decompressBody(enc, body)
 		if err != nil {
 			o.bad("body does not match declared Content-Encoding %q: %v", enc, err)
 			data = nil
@@ -467,7 +472,7 @@ func parseConnectUnary(c *ClientReq, o *Outcome, body []byte, httpTrailers http.
 		return
 	}
 	o.Ends++
-	data, err := decompressWith(enc, body)
+	data, err := decompressBody(enc, body)
 	if err != nil {
 		o.bad("error body does not match declared Content-Encoding %q: %v", enc, err)
 		data = body
@@ -735,7 +740,7 @@ func parseREST(c *ClientReq, o *Outcome, body []byte, httpTrailers http.Header) 
 	enc := h.Get("Content-Encoding")
 	o.Enc = enc
 	o.Ends++
-	data, err := decompressWith(enc, body)
+	data, err := decompressBody(enc, body)
 	if err != nil {
 		o.bad("body does not match declared Content-Encoding %q: %v", enc, err)
 		data = body
